@@ -122,8 +122,9 @@ def run_verus_unit(unit, seed=0, rlimit=None, canary=None, threads=8, tag=''):
     shutil.rmtree(logdir, ignore_errors=True)
     cmd = ['verus', gen_name, '--output-json', '--time-expanded', '--multiple-errors', '4',
            '--num-threads', str(threads), '--log', 'air', '--log-dir', logdir]
-    if rlimit:
-        cmd += ['--rlimit', str(rlimit)]
+    rl = rlimit or spec.get('rlimit')
+    if rl:
+        cmd += ['--rlimit', str(rl)]
     if seed:
         cmd += ['--smt-option', 'smt.random_seed=%d' % seed]
     res['cmd'] = 'cd %s && %s' % (BUILD, ' '.join(cmd))
